@@ -14,6 +14,34 @@ class Mods:
         self.cls = {'4': self.socks.SOCKS4, '4a': self.socks.SOCKS4a, '5': self.socks.SOCKS5}
 
 
+class Livelock(BaseException):
+    """the code under test keeps running without ever finishing (observed, never a hang)"""
+
+
+class watchdog:
+    """`with watchdog(seconds):` raises Livelock inside the block when it runs longer than
+    that (pure-Python spin loops never return to the event loop, so a timer signal is the only
+    way to observe them)."""
+
+    def __init__(self, seconds):
+        self.seconds = seconds
+
+    def _fire(self, signum, frame):
+        raise Livelock()
+
+    def __enter__(self):
+        import signal
+        self._signal = signal
+        self._old = signal.signal(signal.SIGALRM, self._fire)
+        signal.setitimer(signal.ITIMER_REAL, self.seconds)
+        return self
+
+    def __exit__(self, *exc):
+        self._signal.setitimer(self._signal.ITIMER_REAL, 0)
+        self._signal.signal(self._signal.SIGALRM, self._old)
+        return False
+
+
 class StubAddress:
     """duck-typed remote address for inputs `NetAddress` refuses to build (malformed stream)"""
 
